@@ -1,7 +1,10 @@
 (** The (Cluster)ObjectSet controller (internal/controllers/objectsets): one Reconcile pass of
     GenericObjectSetController over a world that also holds the PKO API objects.
     Executable definitions only. Anchors: objectset_controller.go, objectsetphases_reconciler.go,
-    revision_reconciler.go, remotephase_reconciler.go, controllers.go. *)
+    revision_reconciler.go, remotephase_reconciler.go, controllers.go.
+    Phases with a class are delegated: they are realised through an ObjectSetPhase object ([osphase]) that
+    another controller (PhaseController.v) reconciles; the ObjectSet only creates / pauses / deletes the
+    phase object and relays its status (remotephase_reconciler.go). *)
 From Coq Require Import List NArith ZArith Bool.
 From PKO Require Import Util Base Owner Api Phase.
 Import ListNotations.
@@ -72,8 +75,27 @@ Record oset := {
   os_remotes : list (N * N)
 }.
 
-(** The world of the ObjectSet controller: member objects + API counters, and the ObjectSets. *)
-Record sworld := { sw_w : world; sw_sets : list oset }.
+(** ** The (Cluster)ObjectSetPhase API object (apis/core/v1alpha1/objectsetphase_types.go) *)
+Record osphase := {
+  op_id : oid;                (* kind KObjectSetPhase / KClusterObjectSetPhase, namespace, name, uid *)
+  op_rv : N; op_gen : Z;
+  op_owners : list oref;      (* metadata.ownerReferences *)
+  op_deleting : bool;         (* deletionTimestamp set *)
+  op_fin : bool;              (* carries the package-operator.run/cached finalizer *)
+  op_orphan : bool;           (* carries the "orphan" finalizer *)
+  op_pkg : N;                 (* package label (labels are copied from the ObjectSet) *)
+  op_class : N;               (* package-operator.run/phase-class label: 0 none, 1 "default", other = other class *)
+  (* spec *)
+  op_paused : bool; op_revision : Z; op_prev : list N; op_objects : list pobj;
+  (* status *)
+  op_conds : list cond;       (* Available / Paused, each with its observedGeneration *)
+  op_ctrlof : list okey
+}.
+
+(** The world of the ObjectSet controller: member objects + API counters, the ObjectSets, the
+    ObjectSetPhases and the Namespace objects that remotePhase.Teardown consults
+    (number of the namespace, deletionTimestamp set). *)
+Record sworld := { sw_w : world; sw_sets : list oset; sw_phases : list osphase; sw_nss : list (N * bool) }.
 
 Definition oid_eqb (a b : oid) : bool :=
   (oi_kind a =? oi_kind b) && (oi_ns a =? oi_ns b) && (oi_name a =? oi_name b).
@@ -89,13 +111,38 @@ Fixpoint put_set (sets : list oset) (s : oset) : list oset :=
 Definition del_set (sets : list oset) (id : oid) : list oset :=
   filter (fun x => negb (oid_eqb (os_id x) id)) sets.
 
+Definition find_phase (phs : list osphase) (kind ns name : N) : option osphase :=
+  find (fun p => (oi_kind (op_id p) =? kind) && (oi_ns (op_id p) =? ns) && (oi_name (op_id p) =? name)) phs.
+Fixpoint put_phase (phs : list osphase) (p : osphase) : list osphase :=
+  match phs with
+  | [] => [p]
+  | x :: r => if oid_eqb (op_id x) (op_id p) then p :: r else x :: put_phase r p
+  end.
+Definition del_phase (phs : list osphase) (id : oid) : list osphase :=
+  filter (fun x => negb (oid_eqb (op_id x) id)) phs.
+
+Definition ns_state (nss : list (N * bool)) (ns : N) : option bool :=
+  match find (fun x => fst x =? ns) nss with Some x => Some (snd x) | None => None end.
+
 (** Requests on the ObjectSet itself. *)
 Inductive mev :=
 | MFinalizer (added : bool) (ok : bool)      (* merge patch of metadata.finalizers pinned to the resourceVersion *)
 | MStatus (rev : Z) (conds : list cond) (ctrlof : list okey) (remotes : list (N * N)) (fph : option N) (ok : bool).
   (* fph: the phase named in the ProbeFailure message written by this request *)
 
-Inductive sev := SMember (e : ev) | SMeta (m : mev).
+(** Requests on an ObjectSetPhase object, by the ObjectSet controller (create, pause patch, delete, finalizer
+    strip) and by the ObjectSetPhase controller (finalizer patch, status update). [name] is the object's name. *)
+Inductive pev :=
+| PGet (name : N) (r : option osphase)                (* a read by the ObjectSet controller; None = NotFound *)
+| PCreate (name : N) (stored : option osphase)       (* Some p: created and stored as p *)
+| PPause (name : N) (paused : bool) (resp : option osphase)   (* merge patch {spec.paused} pinned to the resourceVersion;
+                                                         Some p: the patched object the server returned *)
+| PDelete (name : N) (r : dres)
+| PStrip (name : N) (ok : bool)                       (* Update with metadata.finalizers = nil *)
+| PFinalizer (name : N) (added : bool) (ok : bool)
+| PStatus (name : N) (conds : list cond) (ctrlof : list okey) (ok : bool).
+
+Inductive sev := SMember (e : ev) | SMeta (m : mev) | SPhase (p : pev).
 
 Inductive sres :=
 | SNothing            (* not found / archived short-circuit: no request at all *)
@@ -137,10 +184,23 @@ Fixpoint dedup_keys (l : list okey) : list okey :=
   end.
 Definition remove_all_key (k : okey) (l : list okey) : list okey := filter (fun x => negb (okey_eqb x k)) l.
 
+(** 337-352: a reference without namespace (cluster-scoped objects reported through the ObjectSetPhase API)
+    that has no direct match removes one entry of the same group, kind and name (Go picks it by map
+    iteration; the model takes the first in spec order, which only matters if the spec lists the same
+    group/kind/name in two namespaces). *)
+Fixpoint remove_first_gkname (c : okey) (l : list okey) : list okey :=
+  match l with
+  | [] => []
+  | x :: r => if (k_gk x =? k_gk c) && (k_name x =? k_name c) then r else x :: remove_first_gkname c r
+  end.
+Definition remove_ctrl (acc : list okey) (c : okey) : list okey :=
+  if existsb (okey_eqb c) acc then remove_all_key c acc
+  else if k_ns c =? 0 then remove_first_gkname c acc else acc.
+
 Definition in_transition (s : oset) (ctrlof : list okey) : bool :=
   if lifecycle_eqb (os_life s) LArchived then false else
   let all := dedup_keys (map (spec_key s) (all_objects s)) in
-  let rest := fold_left (fun acc c => remove_all_key c acc) ctrlof all in
+  let rest := fold_left remove_ctrl ctrlof all in
   negb (is_nil rest).
 
 (** Previous revision lookup (previous_revision_lookup.go): a missing previous set yields an empty identity. *)
@@ -207,7 +267,7 @@ Section Pass.
         if negb (os_rv stored =? os_rv mem) then (sw, mem, false) else
         if status_eqb stored mem then (sw, mem, true) else
         let s' := with_status stored mem (w_rv (sw_w sw)) in
-        ({| sw_w := bump_rv (sw_w sw); sw_sets := put_set (sw_sets sw) s' |}, s', true)
+        ({| sw_w := bump_rv (sw_w sw); sw_sets := put_set (sw_sets sw) s'; sw_phases := sw_phases sw; sw_nss := sw_nss sw |}, s', true)
     end.
 
   Definition status_ev_f (mem : oset) (fph : option N) (ok : bool) : sev :=
@@ -230,8 +290,8 @@ Section Pass.
         if negb (os_rv stored =? os_rv mem) then (sw, None) else
         let s' := set_fin stored fin (w_rv (sw_w sw)) in
         if negb fin && os_deleting stored && negb (os_orphan stored)
-        then ({| sw_w := bump_rv (sw_w sw); sw_sets := del_set (sw_sets sw) (os_id stored) |}, Some s')
-        else ({| sw_w := bump_rv (sw_w sw); sw_sets := put_set (sw_sets sw) s' |}, Some s')
+        then ({| sw_w := bump_rv (sw_w sw); sw_sets := del_set (sw_sets sw) (os_id stored); sw_phases := sw_phases sw; sw_nss := sw_nss sw |}, Some s')
+        else ({| sw_w := bump_rv (sw_w sw); sw_sets := put_set (sw_sets sw) s'; sw_phases := sw_phases sw; sw_nss := sw_nss sw |}, Some s')
     end.
 
   Definition set_conds (s : oset) (cs : list cond) : oset :=
@@ -250,10 +310,184 @@ Section Pass.
        os_phases := os_phases s; os_prev := os_prev s;
        os_revision := r; os_conds := os_conds s; os_ctrlof := os_ctrlof s; os_remotes := os_remotes s |}.
 
+  Definition set_remotes (s : oset) (l : list (N * N)) : oset :=
+    {| os_id := os_id s; os_rv := os_rv s; os_gen := os_gen s; os_deleting := os_deleting s;
+       os_fin := os_fin s; os_orphan := os_orphan s; os_pkg := os_pkg s; os_life := os_life s;
+       os_phases := os_phases s; os_prev := os_prev s;
+       os_revision := os_revision s; os_conds := os_conds s; os_ctrlof := os_ctrlof s; os_remotes := l |}.
+
   Definition mk_cond (s : oset) (t : ctype) (st : cstatus) (r : creason) : cond :=
     {| cd_type := t; cd_status := st; cd_reason := r; cd_gen := os_gen s |}.
 
-  Definition with_w (sw : sworld) (w : world) : sworld := {| sw_w := w; sw_sets := sw_sets sw |}.
+  Definition with_w (sw : sworld) (w : world) : sworld :=
+    {| sw_w := w; sw_sets := sw_sets sw; sw_phases := sw_phases sw; sw_nss := sw_nss sw |}.
+  Definition with_phases (sw : sworld) (w : world) (phs : list osphase) : sworld :=
+    {| sw_w := w; sw_sets := sw_sets sw; sw_phases := phs; sw_nss := sw_nss sw |}.
+
+  (** ** Delegated phases (remotephase_reconciler.go) *)
+
+  (** objectSetPhaseName (236-241): <objectset>-<phase>. Names are numerals in base 1000 whose digits the
+      harness writes as "n<d0>-p<d1>-p<d2>..." for ObjectSets and "p<d0>-p<d1>" for phases, so that string
+      concatenation with "-" is multiplication by a power of 1000: like the real function, [join_name] is
+      not injective as a function of the pair (join_name 3002 5 = join_name 3 2005). *)
+  Definition NB : N := 1000.
+  Definition join_name (set ph : N) : N := if ph <? NB then set * NB + ph else set * (NB * NB) + ph.
+
+  Definition phase_kind (s : oset) : N :=
+    if oi_kind (os_id s) =? KClusterObjectSet then KClusterObjectSetPhase else KObjectSetPhase.
+
+  (** desiredObjectSetPhase (204-234): uid, resourceVersion and generation are assigned by the server. *)
+  Definition desired_phase (s : oset) (ph : phase) : osphase :=
+    {| op_id := {| oi_kind := phase_kind s; oi_ns := oi_ns (os_id s);
+                   oi_name := join_name (oi_name (os_id s)) (ph_name ph); oi_uid := 0 |};
+       op_rv := 0; op_gen := 0;
+       op_owners := [ctrl_ref (os_id s)];
+       op_deleting := false; op_fin := false; op_orphan := false;
+       op_pkg := os_pkg s; op_class := if ph_class ph then 1 else 0;
+       op_paused := lifecycle_eqb (os_life s) LPaused; op_revision := os_revision s; op_prev := os_prev s;
+       op_objects := ph_objects ph; op_conds := []; op_ctrlof := [] |}.
+
+  Definition stamp_phase (p : osphase) (uid rv : N) (gen : Z) : osphase :=
+    {| op_id := {| oi_kind := oi_kind (op_id p); oi_ns := oi_ns (op_id p); oi_name := oi_name (op_id p); oi_uid := uid |};
+       op_rv := rv; op_gen := gen; op_owners := op_owners p; op_deleting := op_deleting p; op_fin := op_fin p;
+       op_orphan := op_orphan p; op_pkg := op_pkg p; op_class := op_class p; op_paused := op_paused p;
+       op_revision := op_revision p; op_prev := op_prev p; op_objects := op_objects p;
+       op_conds := op_conds p; op_ctrlof := op_ctrlof p |}.
+
+  (** Metadata / spec edits of a stored phase object; [rv] is the new resourceVersion. *)
+  Definition phase_with (p : osphase) (rv : N) (gen : Z) (deleting fin orphan paused : bool) : osphase :=
+    {| op_id := op_id p; op_rv := rv; op_gen := gen; op_owners := op_owners p; op_deleting := deleting; op_fin := fin;
+       op_orphan := orphan; op_pkg := op_pkg p; op_class := op_class p; op_paused := paused;
+       op_revision := op_revision p; op_prev := op_prev p; op_objects := op_objects p;
+       op_conds := op_conds p; op_ctrlof := op_ctrlof p |}.
+
+  Definition bump_uid_rv (w : world) : world := {| w_store := w_store w; w_rv := w_rv w + 1; w_uid := w_uid w + 1 |}.
+
+  (** addRemoteObjectSetPhase (243-257): replace the entry of the same name, else append. *)
+  Fixpoint add_remote (refs : list (N * N)) (r : N * N) : list (N * N) :=
+    match refs with
+    | [] => [r]
+    | x :: l => if fst x =? fst r then r :: l else x :: add_remote l r
+    end.
+
+  Inductive rrres := RRErr | RROk (active : list okey) (failed : bool).
+
+  (** The relay (176-207): the phase's Available condition counts only if it was computed for the phase
+      object's current generation. *)
+  Definition relay (cur : osphase) : rrres :=
+    match find_cond (op_conds cur) CAvailable with
+    | None => RROk (op_ctrlof cur) true                                 (* "no status reported" *)
+    | Some cd =>
+        if negb (Z.eqb (cd_gen cd) (op_gen cur)) then RROk (op_ctrlof cur) true
+        else if cstatus_eqb (cd_status cd) STrue then RROk (op_ctrlof cur) false
+        else RROk (op_ctrlof cur) true
+    end.
+
+  (** remotePhase.Reconcile (111-207). [rem]: the in-memory status.remotePhases. The controller of an
+      existing phase object is not looked at. MapConditions is a no-op in the modelled worlds (no condition
+      type contains a "/"). *)
+  Definition remote_reconcile (sw : sworld) (s : oset) (ph : phase) (rem : list (N * N))
+    : sworld * list sev * list (N * N) * rrres :=
+    let d := desired_phase s ph in
+    let name := oi_name (op_id d) in
+    match find_phase (sw_phases sw) (oi_kind (op_id d)) (oi_ns (op_id d)) name with
+    | None =>
+        (* 138-148: Create; the NotFound of the Get is still in [err] at 149, so the creating pass ends with
+           "getting existing ObjectSetPhase: ... not found" *)
+        let stored := stamp_phase d (w_uid (sw_w sw)) (w_rv (sw_w sw)) 1 in
+        (with_phases sw (bump_uid_rv (sw_w sw)) (put_phase (sw_phases sw) stored),
+         [SPhase (PGet name None); SPhase (PCreate name (Some stored))], rem, RRErr)
+    | Some cur =>
+        let rem1 := add_remote rem (name, oi_uid (op_id cur)) in
+        if Bool.eqb (op_paused cur) (op_paused d) then (sw, [SPhase (PGet name (Some cur))], rem1, relay cur) else
+        (* 160-176: merge patch pinned to the resourceVersion just read; the response replaces [cur] *)
+        let cur' := phase_with cur (w_rv (sw_w sw)) (op_gen cur + 1) (op_deleting cur) (op_fin cur) (op_orphan cur) (op_paused d) in
+        (with_phases sw (bump_rv (sw_w sw)) (put_phase (sw_phases sw) cur'),
+         [SPhase (PGet name (Some cur)); SPhase (PPause name (op_paused d) (Some cur'))], rem1, relay cur')
+    end.
+
+  (** metav1.IsControlledBy: the first controller reference, compared by UID only. *)
+  Definition controlled_by_uid (owners : list oref) (uid : N) : bool :=
+    match find r_ctrl owners with Some r => r_uid r =? uid | None => false end.
+
+  (** Delete without preconditions of a phase object: finalizers delay it. *)
+  Definition delete_phase (sw : sworld) (cur : osphase) : sworld :=
+    if op_fin cur || op_orphan cur then
+      if op_deleting cur then sw
+      else with_phases sw (bump_rv (sw_w sw))
+             (put_phase (sw_phases sw) (phase_with cur (w_rv (sw_w sw)) (op_gen cur) true (op_fin cur) (op_orphan cur) (op_paused cur)))
+    else with_phases sw (sw_w sw) (del_phase (sw_phases sw) (op_id cur)).
+
+  (** remotePhase.Teardown (50-109). *)
+  Definition remote_teardown (sw : sworld) (s : oset) (ph : phase) : sworld * list sev * tdphres :=
+    let d := desired_phase s ph in
+    let name := oi_name (op_id d) in
+    match find_phase (sw_phases sw) (oi_kind (op_id d)) (oi_ns (op_id d)) name with
+    | None => (sw, [SPhase (PGet name None)], TdOk true)                (* 65-68: already gone *)
+    | Some cur =>
+        let rd := SPhase (PGet name (Some cur)) in
+        if negb (controlled_by_uid (op_owners cur) (oi_uid (os_id s))) then (sw, [rd], TdOk true)   (* 73-79: orphaned *)
+        else
+        let delete_it := (delete_phase sw cur, [rd; SPhase (PDelete name DOk)], TdOk false) in    (* 100-108 *)
+        if oi_ns (os_id s) =? 0 then delete_it else
+        match ns_state (sw_nss sw) (oi_ns (os_id s)) with
+        | None => (sw, [rd], TdErr)                                     (* 90-92: Get of the Namespace fails *)
+        | Some false => delete_it
+        | Some true =>
+            (* 94-98: namespace is terminating: strip all finalizers, report "not done" *)
+            if negb (op_fin cur || op_orphan cur) then (sw, [rd; SPhase (PStrip name true)], TdOk false) else
+            let cur' := phase_with cur (w_rv (sw_w sw)) (op_gen cur) (op_deleting cur) false false (op_paused cur) in
+            (with_phases sw (bump_rv (sw_w sw))
+               (if op_deleting cur then del_phase (sw_phases sw) (op_id cur) else put_phase (sw_phases sw) cur'),
+             [rd; SPhase (PStrip name true)], TdOk false)
+        end
+    end.
+
+  (** reconcile (187-221) with the dispatch of reconcilePhase (223-235): phases in order, delegated ones through
+      the remote phase reconciler; stop at the first failing probe / phase that has not reported. *)
+  Inductive mres := MErr (e : errclass) | MRemoteErr | MPreflight | MOk (ctrlof : list okey) (failed_phase : option N).
+
+  Fixpoint reconcile_phases_m (sw : sworld) (s : oset) (ow : owner) (prev : list prevrev) (phs : list phase)
+           (acc : list okey) (rem : list (N * N)) : sworld * list sev * list (N * N) * mres :=
+    match phs with
+    | [] => (sw, [], rem, MOk acc None)
+    | ph :: rest =>
+        if ph_class ph then
+          match remote_reconcile sw s ph rem with
+          | (sw1, e1, rem1, RRErr) => (sw1, e1, rem1, MRemoteErr)
+          | (sw1, e1, rem1, RROk active true) => (sw1, e1, rem1, MOk (acc ++ active) (Some (ph_name ph)))
+          | (sw1, e1, rem1, RROk active false) =>
+              let '(sw2, e2, rem2, r) := reconcile_phases_m sw1 s ow prev rest (acc ++ active) rem1 in
+              (sw2, e1 ++ e2, rem2, r)
+          end
+        else
+          match reconcile_phase c idw (sw_w sw) ow prev false (ph_objects ph) with
+          | (w1, e1, PhErr e) => (with_w sw w1, map SMember e1, rem, MErr e)
+          | (w1, e1, PhPreflight _) => (with_w sw w1, map SMember e1, rem, MPreflight)
+          | (w1, e1, PhOk actual failed) =>
+              let acc' := acc ++ map fst (filter (fun ko => is_controller Native (ow_id ow) (snd ko)) actual) in
+              match failed with
+              | _ :: _ => (with_w sw w1, map SMember e1, rem, MOk acc' (Some (ph_name ph)))
+              | [] => let '(sw2, e2, rem2, r) := reconcile_phases_m (with_w sw w1) s ow prev rest acc' rem in
+                      (sw2, map SMember e1 ++ e2, rem2, r)
+              end
+          end
+    end.
+
+  (** Teardown (257-280) with the dispatch of teardownPhase (282-290). *)
+  Fixpoint teardown_phases_m (sw : sworld) (s : oset) (ow : owner) (rphs : list phase) : sworld * list sev * tdphres :=
+    match rphs with
+    | [] => (sw, [], TdOk true)
+    | ph :: rest =>
+        let '(sw1, e1, r1) :=
+          if ph_class ph then remote_teardown sw s ph
+          else let '(w1, e1, r1) := teardown_phase c idw (sw_w sw) ow (ph_objects ph) in (with_w sw w1, map SMember e1, r1) in
+        match r1 with
+        | TdErr => (sw1, e1, TdErr)
+        | TdOk false => (sw1, e1, TdOk false)
+        | TdOk true => let '(sw2, e2, r) := teardown_phases_m sw1 s ow rest in (sw2, e1 ++ e2, r)
+        end
+    end.
 
   (** handleDeletionAndArchival (322-372) followed by the tail of Reconcile (205-218). *)
   Definition deletion_pass (sw : sworld) (mem : oset) : sworld * list sev * sres :=
@@ -265,13 +499,11 @@ Section Pass.
       let '(sw'', _, ok) := update_status sw' (rm_avail mem') in
       (sw'', evs ++ [status_ev (rm_avail mem') ok], if ok then SDone false else SError) in
     (* Teardown only while the finalizer is still there *)
-    let '(w1, tevs, td) :=
+    let '(sw1, evs1, td) :=
       if os_fin mem then
-        if os_orphan mem then (sw_w sw, [], TdOk true)
-        else teardown_phases (sw_w sw) (as_owner mem) (rev (filter (fun ph => negb (ph_class ph)) (os_phases mem)))
-      else (sw_w sw, [], TdOk true) in
-    let sw1 := with_w sw w1 in
-    let evs1 := map SMember tevs in
+        if os_orphan mem then (sw, [], TdOk true)
+        else teardown_phases_m sw mem (as_owner mem) (rev (os_phases mem))
+      else (sw, [], TdOk true) in
     match td with
     | TdErr => (sw1, evs1, SError)
     | TdOk false =>
@@ -338,16 +570,56 @@ Section Pass.
         end
     end.
 
-  (** objectSetPhasesReconciler.Reconcile (105-185) on local phases, then reportPausedCondition and
-      updateStatus. *)
-  Definition paused_cond (mem : oset) : list cond :=
-    if lifecycle_eqb (os_life mem) LPaused
-    then set_cond (os_conds mem) (mk_cond mem CPaused STrue RPaused)
+  (** objectSetPhasesReconciler.Reconcile (105-185), then reportPausedCondition and updateStatus. *)
+
+  (** areRemotePhasesPaused (objectset_controller.go:295-320): Some b = all reachable, b = all report
+      Paused=True; None = a referenced phase object is missing. *)
+  Fixpoint remote_phases_paused (phs : list osphase) (kind ns : N) (refs : list (N * N)) : option bool :=
+    match refs with
+    | [] => Some true
+    | r :: l =>
+        match find_phase phs kind ns (fst r) with
+        | None => None
+        | Some p =>
+            match remote_phases_paused phs kind ns l with
+            | None => None
+            | Some b => Some (cond_true (op_conds p) CPaused && b)
+            end
+        end
+    end.
+
+  (** The reads of areRemotePhasesPaused: one Get per reference, up to and including the first missing one. *)
+  Fixpoint paused_reads_l (phs : list osphase) (kind ns : N) (refs : list (N * N)) : list sev :=
+    match refs with
+    | [] => []
+    | r :: l =>
+        match find_phase phs kind ns (fst r) with
+        | None => [SPhase (PGet (fst r) None)]
+        | Some p => SPhase (PGet (fst r) (Some p)) :: paused_reads_l phs kind ns l
+        end
+    end.
+  Definition paused_reads (phs : list osphase) (mem : oset) : list sev :=
+    paused_reads_l phs (phase_kind mem) (oi_ns (os_id mem)) (os_remotes mem).
+
+  (** reportPausedCondition (objectset_controller.go:251-293). *)
+  Definition paused_cond (phs : list osphase) (mem : oset) : list cond :=
+    let spec := lifecycle_eqb (os_life mem) LPaused in
+    let '(phases_paused, unknown) :=
+      match os_remotes mem with
+      | [] => (spec, false)
+      | refs => match remote_phases_paused phs (phase_kind mem) (oi_ns (os_id mem)) refs with
+                | None => (false, true)
+                | Some b => (b, false)
+                end
+      end in
+    if unknown || (spec && negb phases_paused) || (negb spec && phases_paused)
+    then set_cond (os_conds mem) (mk_cond mem CPaused SUnknown RPartiallyPaused)
+    else if spec then set_cond (os_conds mem) (mk_cond mem CPaused STrue RPaused)
     else remove_cond (os_conds mem) CPaused.
 
   (** The status computed after the phase loop returned (objectsetphases_reconciler.go:133-185) followed by
-      reportPausedCondition (objectset_controller.go:251-293, local phases only). *)
-  Definition final_status (mem1 : oset) (ctrlof : list okey) (failed : option N) : oset :=
+      reportPausedCondition (objectset_controller.go:251-293); [phs]: the phase objects at that point. *)
+  Definition final_status (phs : list osphase) (mem1 : oset) (ctrlof : list okey) (failed : option N) : oset :=
     let m1 := set_ctrlof mem1 ctrlof in
     let intr := in_transition m1 ctrlof in
     let cs1 := if intr then set_cond (os_conds m1) (mk_cond m1 CInTransition STrue RInTransition)
@@ -361,7 +633,7 @@ Section Pass.
           then set_cond cs (mk_cond m1 CSucceeded STrue RRolloutSuccess) else cs
       end in
     let m2 := set_conds m1 cs2 in
-    set_conds m2 (paused_cond m2).
+    set_conds m2 (paused_cond phs m2).
 
   (** The reconciler loop (revision, [slices], phases) and the status write, after the finalizer is ensured. *)
   Definition active_body (sw0 : sworld) (evs0 : list sev) (mem : oset) : sworld * list sev * sres :=
@@ -370,9 +642,9 @@ Section Pass.
     | RevErr => (sw1, evs0 ++ evs1, SError)
     | RevRequeue =>
         (* non-zero result: loop breaks, no error: reportPausedCondition + updateStatus *)
-        let mem2 := set_conds mem1 (paused_cond mem1) in
+        let mem2 := set_conds mem1 (paused_cond (sw_phases sw1) mem1) in
         let '(sw2, _, ok) := update_status sw1 mem2 in
-        (sw2, evs0 ++ evs1 ++ [status_ev mem2 ok], if ok then SDone true else SError)
+        (sw2, evs0 ++ evs1 ++ paused_reads (sw_phases sw1) mem1 ++ [status_ev mem2 ok], if ok then SDone true else SError)
     | RevGo =>
         let fail_with (sw' : sworld) (evs : list sev) (m : oset) (r : creason) :=
           let m' := set_conds m (set_cond (os_conds m) (mk_cond m CAvailable SFalse r)) in
@@ -382,17 +654,18 @@ Section Pass.
         if Nat.ltb 0 (dup_count [] (map (spec_key mem1) (all_objects mem1))) then fail_with sw1 (evs0 ++ evs1) mem1 RPreflightError else
         let ow := as_owner mem1 in
         let prev := lookup_prev (sw_sets sw1) mem1 in
-        let '(w2, pevs, pr) := reconcile_phases (sw_w sw1) ow prev (filter (fun ph => negb (ph_class ph)) (os_phases mem1)) [] in
-        let sw2 := with_w sw1 w2 in
-        let evs2 := evs0 ++ evs1 ++ map SMember pevs in
+        let '(sw2, pevs, rem, pr) := reconcile_phases_m sw1 mem1 ow prev (os_phases mem1) [] (os_remotes mem1) in
+        let evs2 := evs0 ++ evs1 ++ pevs in
+        (* the remote phase references gathered so far are part of the in-memory status on every exit *)
+        let mem2 := set_remotes mem1 rem in
         match pr with
-        | PRPreflight => fail_with sw2 evs2 mem1 RPreflightError
-        | PRErr ErrNotPrevious | PRErr ErrRevCollision => fail_with sw2 evs2 mem1 RCollisionDetected
-        | PRErr _ => (sw2, evs2, SError)
-        | PROk ctrlof failed =>
-            let m3 := final_status mem1 ctrlof failed in
+        | MPreflight => fail_with sw2 evs2 mem2 RPreflightError
+        | MErr ErrNotPrevious | MErr ErrRevCollision => fail_with sw2 evs2 mem2 RCollisionDetected
+        | MErr _ | MRemoteErr => (sw2, evs2, SError)
+        | MOk ctrlof failed =>
+            let m3 := final_status (sw_phases sw2) mem2 ctrlof failed in
             let '(sw3, _, ok) := update_status sw2 m3 in
-            (sw3, evs2 ++ [status_ev_f m3 failed ok], if ok then SDone false else SError)
+            (sw3, evs2 ++ paused_reads (sw_phases sw2) mem2 ++ [status_ev_f m3 failed ok], if ok then SDone false else SError)
         end
     end.
 
